@@ -54,7 +54,7 @@ def main():
     out = []
     for key in sorted(collector):
         _, case, r, clause = collector[key]
-        data = c20.concretise(case, byid, r["seed"])
+        data = c20.concretise(case, byid)
         info = r["info"]
         what = "%s: read_program %s at the %s stage (%s), e.g. on [%s]" % (
             clause.split(":")[0], {"raise": "lets %s escape" % info.get("exc"), "timeout": "does not terminate",
